@@ -237,7 +237,7 @@ class SequentialCB(Evaluator):
             out = {}
 
             if out_time    : out['predict_time'] = pred_time
-            if out_time    : out['learn_time']   = learn_time
+            if out_time and learn: out['learn_time'] = learn_time
             if out_context : out['context']      = context
             if out_actions : out['actions']      = actions
             if out_action  : out['action']       = on_act
